@@ -183,6 +183,7 @@ impl<'a> Parser<'a> {
         let mut span = self.current_span.clone();
         span.start_col = span.end_col;
         span.start_line = span.end_line;
+        span.range = span.range.end..span.range.end;
         Error::new(ErrorKind::SyntaxError(Box::new(
             ReportError::unexpected_end_of_input(&span),
         )))
